@@ -336,13 +336,37 @@ static int run_scenario(std::vector<std::string>& lines)
 {
   std::map<int, std::unique_ptr<Inst>> insts;
   g_fake_wall = true; g_wall = 0; g_fake_clock = true; g_host_us = 0;
-  for (auto& line : lines)
+  for (size_t li = 0; li < lines.size(); li++)
   {
+    auto& line = lines[li];
     auto t = split_ws(line);
     if (t.empty()) continue;
     const std::string& c = t[0];
     auto I = [&](size_t i) { return atol(t[i].c_str()); };
     if (c == "B") continue;
+    else if (c == "Z") { insts.erase((int)I(1)); }      // destroy the instance (driver destructor runs)
+    else if (c == "PAR")
+    {
+      // the P lines up to ENDPAR are fed concurrently, one thread per instance (clocks stay as they are)
+      std::map<int, std::vector<std::vector<uint8_t>>> per;
+      for (li++; li < lines.size() && lines[li] != "ENDPAR"; li++)
+      {
+        auto u = split_ws(lines[li]);
+        if (u.size() >= 2 && u[0] == "P") per[atoi(u[1].c_str())].push_back(u.size() > 2 ? unhex(u[2]) : std::vector<uint8_t>());
+      }
+      std::vector<std::thread> ths;
+      for (auto& kv : per)
+      {
+        auto it = insts.find(kv.first);
+        if (it == insts.end() || !it->second->drv) { fprintf(OUT, "nodrv %d\n", kv.first); continue; }
+        Inst* in = it->second.get();
+        std::vector<std::vector<uint8_t>>* pk = &kv.second;
+        ths.emplace_back([in, pk]() {
+          for (auto& b : *pk) { Packet q; q.buf_ = b; in->drv->decodePacket(q); pump(*in); }
+        });
+      }
+      for (auto& th : ths) th.join();
+    }
     else if (c == "D")
     {
       std::unique_ptr<Inst> in(new Inst());
